@@ -240,13 +240,14 @@ func init() {
 			}
 			// ... also when the answer to the re-request is "roll back" once more (the history changed again in between)
 			xr := rand.New(rand.NewSource(seed*29 + 1))
-			for i := 0; i < (nf+1)/2; i++ {
+			for i := 0; i < nf; i++ {
 				sp, _ := c08Spec(xr, 0)
 				sp.RollbackAt = map[int]int{}
 				sp.RollbackAlso = map[int]int{}
 				for vb := range sp.Rollbacks {
 					sp.RollbackAlso[vb] = 2
 				}
+				sp.RollbackAlsoLower = i%2 == 1 // ... to the same point, or to an earlier one
 				out = append(out, drv.Scenario{Kind: "startfail", Seed: seed, Params: mustJSON(sp), TimeoutS: 90, Solo: true})
 			}
 			return out
